@@ -9,10 +9,19 @@
   encoder and parser — every integer survives `write in w bytes two's complement big-endian →
   read back as intN` exactly, for all four widths and the whole range of each.
   The container state machine is not yet proved against the specification.
+
+  UBJSON PARSER REFINEMENT (namespace `SF.PropsUbjP.C06`), the property IN FULL for the grammar
+  `SF.Ubjson.Syn.Item` (SF/Proofs/UbjItem.lean: every scalar marker, strings and high-precision
+  numbers with lengths in any integer marker, plain / counted / typed arrays and objects, nested
+  typed containers, no-ops where draft 12 allows them): for every stream of well-formed items
+  `Parse` accepts and delivers exactly the items' events, which build exactly the items' values
+  and form a contract-conforming stream.  (Fuel side condition of the MODEL only: at most 10^6
+  payload-free elements per typed array, see the known finding.)
 -/
 import SF.Ubjson.Enc
 import SF.Ubjson.Parse
 import SF.Ubjson.Cst
+import SF.Proofs.UbjParseTop
 namespace SF.Props.C06
 open SF SF.Ubjson
 
@@ -90,3 +99,42 @@ example :
      | _, _ => false) = true := by decide +kernel
 
 end SF.Props.C06
+
+/-! ## UBJSON parser (SF/Ubjson/Parse.lean; proofs SF/Proofs/Ubj{Item,Tree,NoPanic*,Num,Ref*,Prog*,ParseTop}.lean) -/
+
+namespace SF.PropsUbjP.C06
+open SF SF.Ubjson SF.Ubjson.Parse SF.Ubjson.Syn
+open StateType StateStep
+
+/-- C06: for EVERY stream of well-formed UBJSON items (with no-ops before, between and after
+them) `Parse` accepts and delivers exactly the specified events … -/
+theorem parse_refines_events (xs : List (Nat × Item)) (trail : Nat) (h : okElems xs = true)
+    (hfree : ∀ nx ∈ xs, free nx.2 ≤ 1000000) :
+    (parse {} (wireStream xs trail)).2 = none ∧ events (parse {} (wireStream xs trail)).1 = evElems xs :=
+  SF.Props.UbjParse.parse_refines_events xs trail h hfree
+
+/-- … whose VALUES are the values draft 12 assigns -/
+theorem parse_refines_value (xs : List (Nat × Item)) (trail : Nat) (h : okElems xs = true)
+    (hfree : ∀ nx ∈ xs, free nx.2 ≤ 1000000) :
+    buildAll (events (parse {} (wireStream xs trail)).1) = some (valElems xs) :=
+  SF.Props.UbjParse.parse_refines_value xs trail h hfree
+
+/-- a single document: accepted, its events, its value -/
+theorem parse_refines_one (it : Item) (h : it.ok = true) (hfree : free it ≤ 1000000) :
+    (parse {} it.wire).2 = none ∧ events (parse {} it.wire).1 = it.events ∧
+      build (events (parse {} it.wire).1) = some it.value :=
+  SF.Props.UbjParse.parse_refines_one it h hfree
+
+/-- the step-level statement without any fuel side condition: with the explicit iteration count
+`vcost it` (linear: `vcost_linear`) the loop delivers exactly the item's events, reports done and
+leaves the rest of the input -/
+theorem feedUntil_refines (n : Nat) (it : Item) (h : it.ok = true) (rest : Bytes) (F : Nat)
+    (hF : n + 1 + vcost it ≤ F) :
+    ∃ vt, feedUntil F {} (noops n ++ (it.wire ++ rest)) =
+      { p := { evs := it.events.reverse, valueType := vt }, rest := rest, done := true, err := none } :=
+  SF.Props.UbjParse.feedUntil_refines n it h rest F hF
+
+theorem vcost_linear (it : Item) : vcost it + 1 ≤ 3 * it.wire.length + 2 * free it :=
+  SF.Props.UbjParse.vcost_linear it
+
+end SF.PropsUbjP.C06
